@@ -67,6 +67,21 @@ const SETCHARS: &[char] = &['<', '&', '-', '\r', '\n', '\0', ' ', '"', ';', '1',
 const PATS: &[&str] = &["--", "doctype", "[CDATA[", "public", "system", "a", "ab", "DOCTYPE", "-", "<", "do"];
 
 fn rand_string(rng: &mut Rng, max: usize) -> String {
+    if rng.chance(1, 12) {
+        // a long buffer: runs of non-members that cross the 64 / 128 byte marks before the first
+        // member (block-wise scanning code is only exercised by those)
+        let run = *rng.pick(&[60usize, 63, 64, 65, 70, 100, 127, 128, 129, 200]);
+        let filler = *rng.pick(&['x', 'é', 'q', '中']);
+        let mut s = String::new();
+        while s.len() < run {
+            s.push(filler);
+        }
+        s.push(*rng.pick(SETCHARS));
+        for _ in 0..rng.small(6) {
+            s.push(*rng.pick(ALPHA));
+        }
+        return s;
+    }
     let n = rng.small(max);
     (0..n).map(|_| *rng.pick(ALPHA)).collect()
 }
